@@ -308,7 +308,9 @@ func extractEAP(p *message.PayloadEap) *EAPSpec {
 		e.Kind = "aka"
 		e.SubType = uint8(d.SubType())
 		prev := yieldMute
-		yieldMute = true
+		if schedHook != nil {
+			yieldMute = true
+		}
 		for t := 0; t < 256; t++ {
 			a, err := d.GetAttr(eap.EapAkaPrimeAttrType(t))
 			if err != nil {
@@ -316,7 +318,9 @@ func extractEAP(p *message.PayloadEap) *EAPSpec {
 			}
 			e.Attrs = append(e.Attrs, AkaAttrSpec{Type: uint8(a.GetAttrType()), Value: clone(a.GetValue())})
 		}
-		yieldMute = prev
+		if schedHook != nil {
+			yieldMute = prev
+		}
 	default:
 		e.Kind = fmt.Sprintf("unknown:%T", d)
 	}
